@@ -98,6 +98,11 @@ func (m *Machine) timerOf(v Value) *vtimer {
 }
 
 func init() {
+	externals["github.com/spikeekips/mitum/util/verifrt.AdvanceClock"] = func(m *Machine, fr *Frame, a []Value) Value {
+		m.nowNs()
+		m.clockNs += m.concInt(a[0], "AdvanceClock")
+		return nil
+	}
 	externals["time.Now"] = func(m *Machine, fr *Frame, a []Value) Value { return m.timeValue(m.nowNs()) }
 	externals["time.runtimeNano"] = func(m *Machine, fr *Frame, a []Value) Value { return m.intV(m.nowNs()) }
 	externals["time.Sleep"] = func(m *Machine, fr *Frame, a []Value) Value {
